@@ -36,12 +36,28 @@ def quiet() -> None:
     logging.getLogger('progressbar').setLevel(logging.CRITICAL)
     try:
         import dliswriter.file.writer as w
+        if getattr(w.progressbar, '_vf_silent', False):
+            return
+        real = w.progressbar
+        null = open(os.devnull, 'w')
 
-        def _plain(it, **kwargs):
-            return it
-        w.progressbar = _plain      # display only; the loop over records is unchanged
+        def _silent(it, **kwargs):
+            # the REAL progress bar, drawing to /dev/null: it is part of the write loop (it raises when it is shown more
+            # records than it was told to expect), so replacing it would hide real behaviour.  Also counts what passes.
+            declared = kwargs.get('max_value')
+            n = 0
+            for x in real(it, fd=null, **kwargs):
+                n += 1
+                yield x
+            if declared is not None and n != declared:
+                DECLARED_MISMATCH.append((declared, n))
+        _silent._vf_silent = True
+        w.progressbar = _silent
     except Exception:
         pass
+
+
+DECLARED_MISMATCH = []      # (declared number of logical records, number actually passed through the write loop)
 
 
 class LogCapture(logging.Handler):
@@ -115,6 +131,7 @@ def execute(spec: dict, keep_file=False, on_flush=None, want_taps=True, **write_
         if b.error is not None:
             return oracle.Run(spec, b, b.error, None, None, None, list(logs))
         taps = Taps(on_flush)
+        del DECLARED_MISMATCH[:]
         with taps:
             wout = S.do_write(spec, b, path, scratch_dir(), **write_override)
     data = None
@@ -123,6 +140,7 @@ def execute(spec: dict, keep_file=False, on_flush=None, want_taps=True, **write_
             data = f.read()
     run = oracle.Run(spec, b, wout, data, taps.lr if want_taps else None, taps.flush, list(logs))
     run.path = path
+    run.declared_mismatch = list(DECLARED_MISMATCH)     # [(declared, passed)] when the write loop saw another number of records
     if not keep_file:
         with contextlib.suppress(OSError):
             os.remove(path)
